@@ -190,9 +190,13 @@ pub open spec fn bal_rel_we(x: Balance, y: Balance, ct: real) -> bool {
     &&& r3v(y.we.a) == r3s(ct, r3v(x.we.a)) && r3v(y.we.b) == r3s(ct, r3v(x.we.b)) && r3v(y.we.del) == r3s(ct, r3v(x.we.del))
     &&& r3v(y.we.exp_a) == r3s(ct, r3v(x.we.exp_a)) && r3v(y.we.exp) == r3s(ct, r3v(x.we.exp))
 }
+/// only the flows of the per-carrier balances are related (the weighted figures may differ, e.g. through another k_exp)
+pub open spec fn bcr_flows_rel(bcr: Map<Carrier, BalanceCarrier>, bcr2: Map<Carrier, BalanceCarrier>, ct: real) -> bool {
+    bcr2.dom() =~= bcr.dom() && forall|c: Carrier| bcr.contains_key(c) ==> annual_rel(run_of(#[trigger] bcr[c]), run_of(bcr2[c]), ct)
+}
 #[verifier::spinoff_prover]
 pub proof fn thm_building_scalars(bcr: Map<Carrier, BalanceCarrier>, bcr2: Map<Carrier, BalanceCarrier>, ord: Seq<Carrier>, hist: Seq<Balance>, ord2: Seq<Carrier>, hist2: Seq<Balance>, ct: real)
-    requires ct > 0real, bcr_rel(bcr, bcr2, ct), chain_of(bcr, ord, hist), chain_of(bcr2, ord2, hist2),
+    requires ct > 0real, bcr_flows_rel(bcr, bcr2, ct), chain_of(bcr, ord, hist), chain_of(bcr2, ord2, hist2),
     ensures bal_rel_scalars(hist.last(), hist2.last(), ct),
 {
     lemma_chain_scalars(bcr, ord, hist); lemma_chain_scalars(bcr2, ord2, hist2);
@@ -469,6 +473,7 @@ pub proof fn thm_building(bcr: Map<Carrier, BalanceCarrier>, bcr2: Map<Carrier, 
     requires ct > 0real, bcr_rel(bcr, bcr2, ct), chain_of(bcr, ord, hist), chain_of(bcr2, ord2, hist2),
     ensures bal_rel(hist.last(), hist2.last(), ct),
 {
+    assert(bcr_flows_rel(bcr, bcr2, ct));
     thm_building_scalars(bcr, bcr2, ord, hist, ord2, hist2, ct);
     thm_building_we(bcr, bcr2, ord, hist, ord2, hist2, ct);
     thm_building_srv(bcr, bcr2, ord, hist, ord2, hist2, ct);
